@@ -87,6 +87,10 @@ class R:
                 inv = {tuple((a, -e) for a, e in m): ONE / c}
                 n = ring.p_mul(n, inv)
                 d = P_ONE
+        elif "cancel" in ring.rules:
+            n, d = ring.cancel(n, d)
+        if "cancel" in ring.rules and ring.has_neg_radical(n):
+            n, d = ring.pull_radicals(n, d)
         self.n = n
         self.d = d
         self._key = None
@@ -95,7 +99,16 @@ class R:
     def __add__(s, o):
         if s.d == o.d:
             return R(s.ring, p_add(s.n, o.n), s.d)
-        return R(s.ring, p_add(s.ring.p_mul(s.n, o.d), s.ring.p_mul(o.n, s.d)), s.ring.p_mul(s.d, o.d))
+        ring = s.ring
+        if "cancel" in ring.rules and s.d is not P_ONE and o.d is not P_ONE:
+            # one denominator a multiple of the other: use it as the common denominator
+            q = ring.p_divexact(o.d, s.d)
+            if q is not None:
+                return R(ring, p_add(ring.p_mul(s.n, q), o.n), o.d)
+            q = ring.p_divexact(s.d, o.d)
+            if q is not None:
+                return R(ring, p_add(s.n, ring.p_mul(o.n, q)), s.d)
+        return R(ring, p_add(ring.p_mul(s.n, o.d), ring.p_mul(o.n, s.d)), ring.p_mul(s.d, o.d))
 
     def __neg__(s):
         return R(s.ring, {m: -c for m, c in s.n.items()}, s.d)
@@ -176,6 +189,7 @@ class Ring:
         self.memo: dict = {}
         self.positive: set[int] = set()  # atom ids declared > 0 (for sqrt(k^2 e) style optional rules)
         self.atom_args: dict = {}  # atom id -> tuple of argument R's (function atoms)
+        self.mod_args: dict = {}  # atom id of `a % b` -> (a, b)
 
     # -- interning -------------------------------------------------------------------
     def intern(self, k):
@@ -255,6 +269,145 @@ class Ring:
                 return
         out[m] = out.get(m, ZERO) + c
 
+    # -- exact division / cancellation (rule "cancel") ------------------------------------
+    @staticmethod
+    def _lexkey(m):
+        return tuple(sorted(m, reverse=True))
+
+    def _clear(self, p):
+        """(p * cm, cm) with cm the monomial clearing the negative exponents of p"""
+        mins: dict = {}
+        for m in p:
+            for a, e in m:
+                if e < 0 and e < mins.get(a, 0):
+                    mins[a] = e
+        if not mins:
+            return p, ()
+        cm = tuple(sorted((a, -e) for a, e in mins.items()))
+        return self.p_mul(p, {cm: ONE}), cm
+
+    def p_divexact(self, n, g, max_steps=400):
+        """q with q*g == n in the ring (each step is an identity computed through p_mul), or None"""
+        if not g:
+            return None
+        if not n:
+            return {}
+        if len(g) == 1:
+            (m, c), = g.items()
+            return self.p_mul(n, {tuple((a, -e) for a, e in m): ONE / c})
+        n, cn = self._clear(n)
+        g, cg_m = self._clear(g)
+        lg = max(g, key=self._lexkey)
+        cg = g[lg]
+        lgd = dict(lg)
+        q: dict = {}
+        r = dict(n)
+        for _ in range(max_steps):
+            if not r:
+                # n*cn = q * g*cg_m  ->  n/g = q * cg_m / cn
+                adj = mono_mul(cg_m, tuple((a, -e) for a, e in cn))
+                out = {m: c for m, c in q.items() if c}
+                return self.p_mul(out, {adj: ONE}) if adj else out
+            lr = max(r, key=self._lexkey)
+            lrd = dict(lr)
+            if any(e < 0 for e in lrd.values()) or any(lrd.get(a, 0) < e for a, e in lgd.items()):
+                return None
+            t = tuple(sorted((a, e - lgd.get(a, 0)) for a, e in lrd.items() if e - lgd.get(a, 0)))
+            c = r[lr] / cg
+            q[t] = q.get(t, ZERO) + c
+            r = p_add(r, self.p_mul({t: c}, g), -1)
+        return None
+
+    def has_neg_radical(self, p):
+        red = self.red
+        for m in p:
+            for a, e in m:
+                if e <= -2:
+                    r = red[a]
+                    if r is not None and r[0] == "sqrt" and r[1] is not None and len(r[1]) > 1:
+                        return True
+        return False
+
+    def pull_radicals(self, n, d):
+        """s^-2k with s = sqrt(e), e a sum: move e^k into the denominator (X^2/s^2 + Y^2/s^2 is 1 when e = X^2 + Y^2)"""
+        red = self.red
+        mins: dict = {}
+        for m in n:
+            for a, e in m:
+                if e <= -2 and e < mins.get(a, 0):
+                    r = red[a]
+                    if r is not None and r[0] == "sqrt" and r[1] is not None and len(r[1]) > 1:
+                        mins[a] = e
+        if not mins:
+            return n, d
+        for a, e in mins.items():
+            k = (-e) // 2
+            n = self.p_mul(n, {((a, 2 * k),): ONE})
+            g = red[a][1]
+            for _ in range(k):
+                d = self.p_mul(d, g)
+        if len(d) == 1:
+            (m, c), = d.items()
+            return self.p_mul(n, {tuple((a, -e) for a, e in m): ONE / c}), P_ONE
+        return self.cancel(n, d)
+
+    def _radicands(self, p):
+        """(sqrt atom, radicand polynomial) pairs whose radicand has several terms over atoms occurring in p"""
+        atoms = {a for m in p for a, _ in m}
+        out = []
+        for i, r in enumerate(self.red):
+            if r is not None and r[0] == "sqrt" and r[1] is not None and len(r[1]) > 1:
+                if all(a in atoms for m in r[1] for a, _ in m):
+                    out.append((i, r[1]))
+        return out
+
+    def as_monomial(self, p):
+        """(monomial, coefficient) equal to p, un-reducing sqrt(e)^2 = e when p == monomial * e; else None"""
+        if len(p) == 1:
+            (m, c), = p.items()
+            return m, c
+        for i, g in self._radicands(p):
+            q = self.p_divexact(p, g)
+            if q is not None and len(q) == 1:
+                (m, c), = q.items()
+                return mono_mul(m, ((i, 2),)), c
+        return None
+
+    def cancel(self, n, d):
+        """cheap sound simplifications of n/d: conjugate of a binomial denominator, d | n, n | d, common radicand"""
+        if not n:
+            return n, P_ONE
+        if len(d) == 2:
+            (m1, c1), (m2, c2) = d.items()
+            conj = {m1: c1, m2: -c2}
+            mono = self.as_monomial(self.p_mul(d, conj))
+            if mono is not None:
+                m, c = mono
+                inv = {tuple((a, -e) for a, e in m): ONE / c}
+                return self.p_mul(self.p_mul(n, conj), inv), P_ONE
+        q = self.p_divexact(n, d)
+        if q is not None:
+            return q, P_ONE
+        if len(n) > 1:
+            q = self.p_divexact(d, n)
+            if q is not None:
+                if len(q) == 1:
+                    (m, c), = q.items()
+                    return {tuple((a, -e) for a, e in m): ONE / c}, P_ONE
+                return P_ONE, q
+            for _, g in self._radicands(d):
+                qd = self.p_divexact(d, g)
+                if qd is None:
+                    continue
+                qn = self.p_divexact(n, g)
+                if qn is None:
+                    continue
+                if len(qd) == 1:
+                    (m, c), = qd.items()
+                    return self.p_mul(qn, {tuple((a, -e) for a, e in m): ONE / c}), P_ONE
+                return self.cancel(qn, qd)
+        return n, d
+
     def clear_negative(self, p):
         """multiply by a common monomial so that no exponent is negative, then reduce"""
         mins: dict = {}
@@ -284,9 +437,19 @@ class Ring:
             if name == "nan_to_num" and "nan_to_num_id" in rules and len(args) == 1:
                 return args[0]
             if name in ("cos", "sin") and len(args) == 1:
+                if "inverse_trig" in rules:
+                    r = self._inverse_rules(name, args[0])
+                    if r is not None:
+                        return r
                 r = self._trig_rules(name, args[0])
                 if r is not None:
                     return r
+            if "inverse_trig" in rules and len(args) == 1 and name in ("cos", "sin", "tan", "sinh", "cosh", "exp", "absolute"):
+                r = self._inverse_rules(name, args[0])
+                if r is not None:
+                    return r
+            if name == "tan" and "angle_addition" in rules and "inverse_trig" in rules and len(args) == 1 and args[0].is_poly() and len(args[0].n) > 1:
+                return self.fn("sin", [args[0]]) / self.fn("cos", [args[0]])
             if name == "sinh" and "sinh_arcsinh" in rules and len(args) == 1:
                 i = self.single_atom(args[0])
                 if i is not None and self.atom_desc[i][:2] == ("fn", "arcsinh"):
@@ -303,6 +466,10 @@ class Ring:
                 i = self.single_atom(args[0])
                 if i is not None and self.atom_desc[i][:2] == ("fn", "exp"):
                     return self.atom_args[i][0]
+            if "domain" in rules and not kw:
+                r = self._domain_rules(name, args)
+                if r is not None:
+                    return r
         if len(args) == 1 and not kw:
             a = args[0]
             if name in EVEN:
@@ -373,6 +540,156 @@ class Ring:
             return s1 * c2 + c1 * s2
         return None
 
+    def _nonneg_atom(self, i) -> bool:
+        d = self.atom_desc[i]
+        return i in self.positive or (d[0] == "fn" and d[1] in ("absolute", "sqrt", "exp", "cosh", "arccos"))
+
+    def evident_sign(self, a: "R"):
+        """+1 / -1 when every term of the polynomial a has that sign on the declared domain (atoms known
+        non-negative or raised to even powers), 0 for the zero polynomial, None when not evident"""
+        if not a.is_poly():
+            return None
+        if not a.n:
+            return 0
+        sg = None
+        for m, c in a.n.items():
+            if not all(self._nonneg_atom(x) or y % 2 == 0 for x, y in m):
+                return None
+            t = 1 if c > 0 else -1
+            if sg is None:
+                sg = t
+            elif sg != t:
+                return None
+        return sg
+
+    def _strictly_signed(self, a: "R"):
+        """evident sign with at least one term that cannot vanish on the domain (a constant or a product of declared-positive atoms)"""
+        sg = self.evident_sign(a)
+        if sg in (None, 0):
+            return None
+        for m, c in a.n.items():
+            if all(x in self.positive for x, _ in m):
+                return sg
+        return None
+
+    def _domain_rules(self, name, args):
+        if name == "sign" and len(args) == 1:
+            sg = self._strictly_signed(args[0])
+            if sg is not None:
+                return self.const(sg)
+        if name == "maximum" and len(args) == 2:
+            for a, b in (args, args[::-1]):
+                if b.is_zero():
+                    sg = self.evident_sign(a)
+                    if sg is not None:
+                        return a if sg >= 0 else self.const(0)
+        if name == "minimum" and len(args) == 2:
+            for a, b in (args, args[::-1]):
+                if b.is_zero():
+                    sg = self.evident_sign(a)
+                    if sg is not None:
+                        return a if sg <= 0 else self.const(0)
+        if name == "copysign" and len(args) == 2:
+            sg = self._strictly_signed(args[1])
+            if sg is not None:
+                r = self.fn("absolute", [args[0]])
+                return r if sg > 0 else -r
+        if name == "absolute" and len(args) == 1:
+            a = args[0]
+            sg = self.evident_sign(a)
+            if sg is not None:
+                return a if sg >= 0 else -a
+            # |arccos(u) - pi| = pi - arccos(u)
+            pi = self.atom_ids.get(("libattr", "pi"))
+            if pi is not None and a.is_poly() and len(a.n) == 2:
+                for flip in (1, -1):
+                    if a.n.get(((pi, 1),)) == -flip:
+                        rest = [(m, c) for m, c in a.n.items() if m != ((pi, 1),)]
+                        (m, c), = rest
+                        if c == flip and len(m) == 1 and m[0][1] == 1 and self.atom_desc[m[0][0]][:2] == ("fn", "arccos"):
+                            return a if flip == -1 else -a
+        return None
+
+    def _coef_atom(self, a: "R"):
+        """(coefficient, atom id) if a == c * atom with a rational c, else None"""
+        if a.d == P_ONE and len(a.n) == 1:
+            (m, c), = a.n.items()
+            if len(m) == 1 and m[0][1] == 1:
+                return c, m[0][0]
+        return None
+
+    def _inverse_rules(self, name, a: "R"):
+        """f(c * g(u)) for inverse pairs, on the documented domains (theta in [0, pi], representable operands):
+        cos/sin/tan of arccos, arctan, arctan2; sinh/cosh/exp of arcsinh; exp of log; tan(arccos(u)/2);
+        |m| = m for a monomial of non-negative atoms; cos/sin of an angle wrapped by (a + pi) % (2 pi) - pi."""
+        if name == "absolute":
+            if a.d == P_ONE and len(a.n) == 1:
+                (m, c), = a.n.items()
+                if m and all(self._nonneg_atom(x) or y % 2 == 0 for x, y in m):
+                    return R(self, {m: abs(c)})
+            return None
+        if name in ("cos", "sin") and a.d == P_ONE and len(a.n) == 2:
+            # (w % (2 pi)) - pi  with w = b + pi  ->  same cos/sin as b
+            pi = self.atom_ids.get(("libattr", "pi"))
+            if pi is not None and a.n.get(((pi, 1),)) == -1:
+                rest = {m: c for m, c in a.n.items() if m != ((pi, 1),)}
+                (m, c), = rest.items()
+                if c == 1 and len(m) == 1 and m[0][1] == 1 and self.atom_desc[m[0][0]][0] == "op%":
+                    wk, mk = self.atom_desc[m[0][0]][1:]
+                    w = self.mod_args.get(m[0][0])
+                    if w is not None:
+                        num, mod = w
+                        two_pi = R(self, {((pi, 1),): Fraction(2)})
+                        if mod.key() == two_pi.key():
+                            b = num - R(self, {((pi, 1),): ONE})
+                            return self.fn(name, [b])
+        ca = self._coef_atom(a)
+        if ca is None:
+            return None
+        c, i = ca
+        d = self.atom_desc[i]
+        if d[0] != "fn" or i not in self.atom_args:
+            return None
+        g = d[1]
+        u = self.atom_args[i][0]
+        one = self.const(1)
+        sgn = 1 if c > 0 else -1
+        if abs(c) == 1:
+            if g == "arccos":
+                s = self.sqrt(one - u * u)
+                if name == "cos":
+                    return u
+                if name == "sin":
+                    return s if sgn > 0 else -s
+                if name == "tan":
+                    return (s / u) if sgn > 0 else -(s / u)
+            if g == "arctan":
+                h = self.sqrt(one + u * u)
+                if name == "cos":
+                    return one / h
+                if name == "sin":
+                    return (u / h) if sgn > 0 else -(u / h)
+                if name == "tan":
+                    return u if sgn > 0 else -u
+            if g == "arctan2" and name == "tan":
+                y, x = self.atom_args[i]
+                return (y / x) if sgn > 0 else -(y / x)
+            if g == "arcsinh":
+                h = self.sqrt(one + u * u)
+                if name == "sinh":
+                    return u if sgn > 0 else -u
+                if name == "cosh":
+                    return h
+                if name == "exp":
+                    return (h + u) if sgn > 0 else (h - u)
+            if g == "log" and name == "exp":
+                return u if sgn > 0 else one / u
+        if abs(c) == Fraction(1, 2) and g == "arccos" and name == "tan":
+            s = self.sqrt(one - u * u)
+            r = s / (one + u)
+            return r if sgn > 0 else -r
+        return None
+
     def _sq_red(self, kind, a: "R"):
         """reduction entry for atoms whose square is a^2: (kind, a^2 as poly | None, inverse monomial | None)"""
         if not a.is_poly():
@@ -398,6 +715,9 @@ class Ring:
                 rn, rd = math.isqrt(c.numerator), math.isqrt(c.denominator)
                 if rn * rn == c.numerator and rd * rd == c.denominator:
                     return self.const(Fraction(rn, rd))
+        if "inverse_trig" in self.rules and not a.is_poly():
+            # sqrt(n/d) = sqrt(n)/sqrt(d) on the domain n >= 0, d > 0
+            return self.sqrt(R(self, a.n)) / self.sqrt(R(self, a.d))
         rep = a.n if a.is_poly() else None
         inv = None
         if rep is not None and len(rep) == 1:
@@ -413,9 +733,9 @@ class Ring:
                     for x, y in m:
                         out = out * self.abs_atom(x).powi(y // 2)
                     return out
-        if "sqrt_pos" in self.rules and rep is not None and len(rep) > 1 and self.positive:
+        if ("sqrt_pos" in self.rules or "inverse_trig" in self.rules) and rep is not None and len(rep) > 1:
             # common even power of positive atoms: sqrt(k^2 e) -> k sqrt(e)
-            pos_atoms = {x for m in rep for x, _ in m if x in self.positive}
+            pos_atoms = {x for m in rep for x, _ in m if self._nonneg_atom(x)}
             common = {}
             for x in pos_atoms:
                 mn = min(dict(m).get(x, 0) for m in rep)
@@ -483,7 +803,10 @@ class Ring:
             a, b = self.of(x), self.of(y)
             if o in "&|":
                 return self.atom_R(("bool" + o, *sorted([a.key(), b.key()])))
-            return self.atom_R(("op" + o, a.key(), b.key()))
+            r = self.atom_R(("op" + o, a.key(), b.key()))
+            if o == "%":
+                self.mod_args[self.single_atom(r)] = (a, b)
+            return r
         if k == "cmp":
             o, x, y = n.a
             a, b = self.of(x), self.of(y)
@@ -534,6 +857,22 @@ class Ring:
         if len(p) > limit:
             terms.append(f"… ({len(p)} terms)")
         return " + ".join(terms)
+
+    def atom_defs(self, p, depth=2, seen=None):
+        """definitions of the function atoms occurring in polynomial p (debugging / witness text)"""
+        seen = {} if seen is None else seen
+        for m in p:
+            for a, _ in m:
+                if a in seen or a not in self.atom_args:
+                    continue
+                args = self.atom_args[a]
+                seen[a] = f"{self.show_atom(a)} = {self.atom_desc[a][1]}({', '.join(self.show(x) for x in args)})"
+                if depth > 0:
+                    for x in args:
+                        self.atom_defs(x.n, depth - 1, seen)
+                        if x.d is not P_ONE:
+                            self.atom_defs(x.d, depth - 1, seen)
+        return seen
 
     def show(self, r: R):
         if r.is_poly():
